@@ -90,8 +90,8 @@ type World struct {
 	// and outputs of earlier calls that no later call of its script refers to; of a piece, everything but the carried
 	// states), and a garbage collection including a finalizer pass happens - memory pressure at the worst moment.
 	Collect bool `json:"collect,omitempty"`
-	// Env: environment variables (of those the code under test reads) set while the world executes; the references
-	// are computed without them - a result must not depend on them.
+	// Env: environment variables (of those the code under test reads) set while the world executes and while its
+	// references are computed.
 	Env map[string]string `json:"env,omitempty"`
 	// Clock: simulated time moved forward by Clock[k mod len] nanoseconds before the k-th executed call of the
 	// world; only drawn when the tree reads the clock. The references are computed whenever they are computed - a
